@@ -166,18 +166,8 @@ class Shape:
 
 
 def _loop_single_defs(lp: ast.For) -> Dict[str, ast.expr]:
-    cnt, env = {}, {}
-    for n in ast.walk(lp):
-        if isinstance(n, ast.Assign) and len(n.targets) == 1 and isinstance(n.targets[0], ast.Name):
-            cnt[n.targets[0].id] = cnt.get(n.targets[0].id, 0) + 1
-            env[n.targets[0].id] = n.value
-        elif isinstance(n, (ast.AugAssign,)) and isinstance(n.target, ast.Name):
-            cnt[n.target.id] = cnt.get(n.target.id, 0) + 2
-        elif isinstance(n, ast.For) and n is not lp:
-            for x in ast.walk(n.target):
-                if isinstance(x, ast.Name):
-                    cnt[x.id] = cnt.get(x.id, 0) + 2
-    return {k: v for k, v in env.items() if cnt[k] == 1}
+    from ..util import loop_env
+    return loop_env(lp)
 
 
 def check_plan(ctx):
